@@ -123,27 +123,29 @@ def entitledB (f : Forest) (m : Method) (c : Ctx) : Bool :=
                        | none => false
                        | some s => entitledZoneB f m.cls s c))
 
-/-- What the harness observed for one message (before/after snapshots of the receiver). -/
-structure Obs where
-  /-- the serialised state of some object differs -/
-  objects : Bool
-  /-- a file or directory under the data directory appeared, vanished or changed -/
-  files : Bool
-  /-- a message was queued to an endpoint other than the sender -/
-  relayed : Bool
-  /-- a command was executed or a notification signal was delivered to local subscribers -/
-  executed : Bool
-  deriving Repr, DecidableEq
+/-! `Obs` (what the harness observed for one message: objects / files / relayed / executed / foreign) is declared in
+    Model.lean because the model produces one too (`observe`); the specification reads nothing else of the model. -/
 
-def Obs.applied (o : Obs) : Bool := o.objects || o.files || o.relayed || o.executed
+/-- **The class F-C13a** (known finding, see IcingaProofs/C13.lean).  A state/event update, check result or execution
+    result from an authenticated endpoint of the receiver's OWN zone is judged by the code not against the sender's
+    zone but against the zone the message itself names in `originZone` — or against nothing when the field is absent
+    or names no zone.  The class is: own-zone sender, update class, and the claim is absent or names a zone that would
+    itself be entitled.  A message whose claimed zone is NOT entitled lies outside (the code refuses it). -/
+def inFC13a (f : Forest) (m : Method) (c : Ctx) : Bool :=
+  (m.cls == .stateUpdate || m.cls == .checkResult || m.cls == .execResult) &&
+  c.authenticated && c.endpointZone == some c.localZone &&
+  (match c.originZone with
+   | none => true
+   | some z => entitledZoneB f m.cls z c)
 
 inductive Clause
-  | anonymousOnlyCertificate | appliedOnlyIfEntitled
+  | anonymousOnlyCertificate | appliedOnlyIfEntitled | sessionOnlyOwnEndpoint
   deriving Repr, DecidableEq
 
 def Clause.name : Clause → String
   | .anonymousOnlyCertificate => "anonymous_only_certificate"
   | .appliedOnlyIfEntitled => "applied_only_if_entitled"
+  | .sessionOnlyOwnEndpoint => "session_only_own_endpoint"
 
 /-- The property on one observed message: whatever was applied, was applied for an entitled sender;
     a connection without authenticated, configured endpoint achieved nothing unless the method is the
@@ -153,6 +155,18 @@ def specStep (f : Forest) (m : Method) (c : Ctx) (o : Obs) : Option Clause :=
   if o.applied && !(c.authenticated && c.endpointZone.isSome) && m.cls != .certRequest then
     some .anonymousOnlyCertificate
   else if o.applied && !entitledB f m c then some .appliedOnlyIfEntitled
+  -- the class `session` is entitled to nothing but the record of its own connection: whatever such a message
+  -- changes is the sender's own Endpoint object — no other object, no file, no relay, no execution
+  else if m.cls == .session && (o.foreign || o.files || o.relayed || o.executed) then some .sessionOnlyOwnEndpoint
   else none
+
+/-- The property on a whole observed trace (one receiver, messages in order): index and clause of the first
+    message that violates it. -/
+def specTrace (f : Forest) : List (Method × Ctx × Obs) → Nat → Option (Nat × Clause)
+  | [], _ => none
+  | (m, c, o) :: rest, i =>
+    match specStep f m c o with
+    | some cl => some (i, cl)
+    | none => specTrace f rest (i + 1)
 
 end Icinga.C13
